@@ -413,18 +413,23 @@ pub struct EscapedValues;
 
 fn escape_env() -> Environment<'static> {
     let mut env = Environment::new();
-    env.add_template("t", "{% import 'lib' as lib %}{% macro hello(n) %}Hello {{ n }}{{ suffix }}{% endmacro %}{% set suffix = '!' %}{% set ns = namespace(k='K') %}{{ hello('x') }}").unwrap();
+    env.add_template("t", "{% import 'lib' as lib %}{% macro hello(n) %}Hello {{ n }}{{ suffix }}{% endmacro %}{% set suffix = '!' %}{% set ns = namespace(k='K') %}{{ hello('x') }}{% if v is defined %}[{{ v('Bob') if call else v.k }}]{% endif %}").unwrap();
     env.add_template("lib", "{% set greeting = 'Hi' %}{% macro greet(n) %}{{ greeting }} {{ n }}{% endmacro %}").unwrap();
-    env.add_template("use", "[{{ v('Bob') if v is callable else v.k }}]").unwrap();
+    env.add_template("use", "[{{ v('Bob') if call else v.k }}]").unwrap();
     env.add_template("warm", "{% macro w() %}w{% endmacro %}{{ w() }}").unwrap();
     env
 }
 
-fn use_value(env: &Environment<'static>, v: &Value) -> String {
-    match env.get_template("use").and_then(|t| t.render(Value::from_pairs([("v", v.clone())]))) {
-        Ok(s) => format!("ok:{s}"),
-        Err(e) => format!("err:{:?}:{}", e.kind(), e.detail().unwrap_or("")),
+/// the value is used by a later render of the template it came from and by another template
+fn use_value(env: &Environment<'static>, v: &Value, call: bool) -> String {
+    let mut out = String::new();
+    for name in ["t", "use"] {
+        match env.get_template(name).and_then(|t| t.render(Value::from_pairs([("v", v.clone()), ("call", Value::from(call))]))) {
+            Ok(s) => out.push_str(&format!("ok:{s};")),
+            Err(e) => out.push_str(&format!("err:{:?}:{};", e.kind(), e.detail().unwrap_or(""))),
+        }
     }
+    out
 }
 
 impl Part for EscapedValues {
@@ -473,7 +478,7 @@ impl Part for EscapedValues {
                 .unwrap_or_default();
                 drop(captured);
                 warm(&env, case.c);
-                let on_a = use_value(&env, &v);
+                let on_a = use_value(&env, &v, case.what % 3 != 2);
                 (v, on_a)
             })
             .join()
@@ -484,16 +489,25 @@ impl Part for EscapedValues {
             let env = env.clone();
             let v = value.clone();
             let b = case.b;
+            let call = case.what % 3 != 2;
             std::thread::spawn(move || {
                 warm(&env, b);
-                use_value(&env, &v)
+                use_value(&env, &v, call)
             })
             .join()
             .unwrap()
         };
         // and the calling thread (which has rendered thousands of templates already)
-        let here = use_value(&env, &value);
+        let here = use_value(&env, &value, case.what % 3 != 2);
         let mut v = Verdict::pass(case.a == case.b);
+        // what the engine does with the value (so that a vacuous run shows in the evidence)
+        v.labels.push(if here.contains("went away") {
+            "stale_macro_refused"
+        } else if here.starts_with("ok:") {
+            "value_usable_later"
+        } else {
+            "other_error"
+        });
         if on_a != on_b || on_a != here {
             v.set_fail(
                 "result_depends_on_thread_history",
